@@ -38,6 +38,9 @@ SUNMatrix SUNDenseMatrix(sunindextype, sunindextype, SUNContext);
 SUNMatrix SUNSparseMatrix(sunindextype, sunindextype, sunindextype, int, SUNContext);
 void SUNMatDestroy(SUNMatrix);
 int SUNMatZero(SUNMatrix);
+sunindextype *SUNSparseMatrix_IndexPointers(SUNMatrix);
+sunindextype *SUNSparseMatrix_IndexValues(SUNMatrix);
+realtype *SUNSparseMatrix_Data(SUNMatrix);
 SUNLinearSolver SUNLinSol_Dense(N_Vector, SUNMatrix, SUNContext);
 SUNLinearSolver SUNLinSol_KLU(N_Vector, SUNMatrix, SUNContext);
 int SUNLinSolSetup(SUNLinearSolver, SUNMatrix);
